@@ -714,6 +714,10 @@ func installFunctions(in *Interp, p *Pkg) {
 		pure := func(f *V) bool {
 			return f == nil || (f.Fn.Builtin != nil && f.Fn.Kind == FnFunction && pureBuiltins[f.Fn.Name])
 		}
+		if in.Routes && key == nil && less.Fn.AlwaysRaises && less.Fn.Kind == FnFunction && len(a[1].Elems()) >= 2 {
+			// sorting two or more elements compares at least one pair
+			return in.call(less, a[1].Elems()[0], a[1].Elems()[1])
+		}
 		if !pure(less) || !pure(key) {
 			return nil, in.unsureSort(less, key, a[1])
 		}
